@@ -123,6 +123,7 @@ type hcExch struct {
 	pr            *io.PipeReader
 	pw            *io.PipeWriter
 	w             *hcRW
+	cutc          chan struct{} // closed when the connection of the exchange is cut
 	mu            sync.Mutex
 	returned      bool // ServeHTTP has returned
 	cut           bool
@@ -170,6 +171,8 @@ type hcRun struct {
 	open      map[string]bool // harness operations (close / wait) that have not returned
 	bubble    string
 	delPend   *hcPend
+	armed     time.Time // when the session's idle timer was last (re)armed: the last POST exchange returned
+	openPosts int
 }
 
 func (r *hcRun) ph() string {
@@ -233,6 +236,7 @@ func (x *hcExch) cutNow() {
 	}
 	x.cut = true
 	x.mu.Unlock()
+	close(x.cutc)
 	x.pw.CloseWithError(io.ErrUnexpectedEOF)
 	x.pr.CloseWithError(errors.New("hc: client gone"))
 	x.cancel()
@@ -376,7 +380,7 @@ func (rt *hcRT) serve(req *http.Request, body []byte, x *hcExch, abort chan stru
 	pr, pw := io.Pipe()
 	w := &hcRW{hdr: http.Header{}, pw: pw, ready: make(chan struct{}), x: x}
 	sctx, cancel := context.WithCancel(context.Background())
-	x.cancel, x.pr, x.pw, x.w = cancel, pr, pw, w
+	x.cancel, x.pr, x.pw, x.w, x.cutc = cancel, pr, pw, w, make(chan struct{})
 	stop := context.AfterFunc(req.Context(), func() {
 		cancel()
 		pr.CloseWithError(errors.New("hc: client gone"))
@@ -388,8 +392,12 @@ func (rt *hcRT) serve(req *http.Request, body []byte, x *hcExch, abort chan stru
 	}
 	sreq.RequestURI = req.URL.RequestURI()
 	sreq.RemoteAddr = "192.0.2.1:1234"
+	isPost := req.Method == http.MethodPost
 	r.mu.Lock()
 	r.exchs = append(r.exchs, x)
+	if isPost {
+		r.openPosts++
+	}
 	r.mu.Unlock()
 	r.log.emit("x.srv", "x", x.name, "kind", x.kind, "k", x.k)
 	go func() {
@@ -403,6 +411,12 @@ func (rt *hcRT) serve(req *http.Request, body []byte, x *hcExch, abort chan stru
 			x.mu.Lock()
 			x.returned = true
 			x.mu.Unlock()
+			if isPost {
+				r.mu.Lock()
+				r.openPosts--
+				r.armed = time.Now()
+				r.mu.Unlock()
+			}
 			r.log.emit("x.ret", "x", x.name, "kind", x.kind, "k", x.k, "status", w.code)
 		}()
 		r.handler.ServeHTTP(w, sreq)
@@ -418,6 +432,8 @@ func (rt *hcRT) serve(req *http.Request, body []byte, x *hcExch, abort chan stru
 	case <-abort: // nil unless this is the DELETE of Close
 		r.log.emit("x.fail", "x", x.name, "kind", x.kind, "k", x.k, "why", "reset")
 		x.cutNow()
+		return nil, errHcNet
+	case <-x.cutc: // the connection was cut before any response header: the request fails in transit
 		return nil, errHcNet
 	}
 	x.mu.Lock()
@@ -998,11 +1014,24 @@ func (r *hcRun) step(stp []any) {
 					x.cutNow()
 				}
 			}
+			r.resetDelete(op)
 		}
 	case "tick":
 		r.sleep(hcTick, "tick")
 	case "idle":
-		r.sleep(hcIdle, "idle")
+		// until the idle timer fires (it was armed when the last POST returned), and a millisecond more: whatever was
+		// pending before has expired, nothing that starts with the timeout has
+		r.mu.Lock()
+		d := hcIdle
+		if r.sc.Cfg.Timeout && r.openPosts == 0 && !r.armed.IsZero() {
+			if u := time.Until(r.armed.Add(hcSessionTimeout + time.Millisecond)); u > 0 {
+				d = u
+			} else {
+				d = time.Millisecond
+			}
+		}
+		r.mu.Unlock()
+		r.sleep(d, "idle")
 	case "cnotif":
 		if gone {
 			applied = false
